@@ -12,6 +12,7 @@ import (
 func init() {
 	vsRegister("C10.node_lookup", vhC10NodeLookup)
 	vsRegister("C10.node_lookup_cancel", vhC10NodeLookupCancel)
+	vsRegister("C10.node_lookup_repeats", vhC10NodeLookupRepeats)
 	vsRegister("C10.alpha_bound", vhC10AlphaBound)
 	vsRegister("C10.push_step", vhC10PushStep)
 	vsRegister("C10.content_lookup", vhC10ContentLookup)
@@ -84,7 +85,7 @@ func (w *vhLookupWorld) index(n *enode.Node) int {
 
 // answer: the arbitrary (adversarial) reply of a peer.
 func (w *vhLookupWorld) answer(a int) ([]*enode.Node, error) {
-	if vsChoose("answer-kind", 3) == 0 {
+	if vsChoose("answer-kind", 2) == 0 {
 		return nil, vmErrLoad // silent / failing peer
 	}
 	k := vsChoose("answer-len", a+1)
@@ -112,13 +113,22 @@ func (w *vhLookupWorld) answer(a int) ([]*enode.Node, error) {
 //verif:harness C10.node_lookup unwind=60 timeout=60 maxpaths=200000
 //verif:use lookupenv
 //verif:go pending
-//verif:param P=3/4 A=1/2 SYMORDER=0/0
+//verif:param P=4/5 A=1/1 SYMORDER=0/0
 func vhC10NodeLookup() { vhC10NodeLookupBody() }
+
+// The same with answers of up to two nodes (a peer can name the same node twice in one answer, and
+// name a node that is known but not yet asked).
+//
+//verif:harness C10.node_lookup_repeats unwind=60 timeout=60 maxpaths=400000 wall=600/1200
+//verif:use lookupenv
+//verif:go pending
+//verif:param P=2/3 A=2/2 SYMORDER=0/0
+func vhC10NodeLookupRepeats() { vhC10NodeLookupBody() }
 
 // The same with cancellation possible at every wait of the lookup loop, and with arbitrary
 // relative distances between the peers (smaller pool).
 //
-//verif:harness C10.node_lookup_cancel unwind=60 timeout=60 maxpaths=200000
+//verif:harness C10.node_lookup_cancel unwind=60 timeout=60 maxpaths=400000 wall=600/1800
 //verif:use lookupenv
 //verif:go pending
 //verif:ctx nondet
